@@ -12,7 +12,8 @@ ID = 'C01'
 LEVEL = 'proof'
 LEVEL_TEXT = ('Unbounded Lean theorems: (a) ALL SIZES of the hand-modelled classes (Properties/C01<Class>.lean, currently '
               'Toric2DCode L>=2, Planar2DCode and RotatedPlanar2DCode L>=1, Toric3DCode L>=2, Planar3DCode and '
-              'RotatedPlanar3DCode L>=1, XCubeCode L>=2, RhombicPlanarCode Lx,Ly>=2 Lz>=1, more as they are merged): the assembled '
+              'RotatedPlanar3DCode L>=1, XCubeCode L>=2, RhombicPlanarCode Lx,Ly>=2 Lz>=1, RhombicToricCode all L_i even >=2, more as '
+              'they are merged): the assembled '
               'matrices '
               'exist and satisfy ValidCodeL n k (commutation, logical commutation, pairing table, GF(2) rank n-k) for every '
               'lattice size, with closed forms for n, k, stabilizers and get_deformation; (b) the executable validity checker '
